@@ -600,3 +600,202 @@ func reachPS(fn *ssa.Function, start ssa.Instruction, target, barrier func(ssa.I
 	}
 	return nil, nil
 }
+
+// reachPSA: like reachPS, but the target predicate also sees what the path assumes about tested values
+// (value -> "truthy": true / non-nil).  Used to tell success returns from error returns.
+func reachPSA(fn *ssa.Function, start ssa.Instruction, target func(ssa.Instruction, map[ssa.Value]bool) bool, barrier func(ssa.Instruction) bool, ef edgeFilter) (ssa.Instruction, []*ssa.BasicBlock) {
+	if fn == nil || len(fn.Blocks) == 0 {
+		return nil, nil
+	}
+	type item struct {
+		b    *ssa.BasicBlock
+		i    int
+		amap map[ssa.Value]bool
+		prev int
+	}
+	keyOf := func(m map[ssa.Value]bool) string {
+		var ks []string
+		for v, t := range m {
+			ks = append(ks, v.Name()+"="+map[bool]string{true: "1", false: "0"}[t])
+		}
+		sort.Strings(ks)
+		return strings.Join(ks, ",")
+	}
+	var queue []item
+	seen := map[string]bool{}
+	if start == nil {
+		queue = append(queue, item{fn.Blocks[0], 0, map[ssa.Value]bool{}, -1})
+	} else {
+		p := posOfInstr(start)
+		queue = append(queue, item{p.b, p.i + 1, map[ssa.Value]bool{}, -1})
+	}
+	for qi := 0; qi < len(queue) && qi < 20000; qi++ {
+		it := queue[qi]
+		stopped := false
+		for i := it.i; i < len(it.b.Instrs); i++ {
+			in := it.b.Instrs[i]
+			if target != nil && target(in, it.amap) {
+				var path []*ssa.BasicBlock
+				for k := qi; k >= 0; k = queue[k].prev {
+					path = append([]*ssa.BasicBlock{queue[k].b}, path...)
+				}
+				return in, path
+			}
+			if barrier != nil && barrier(in) {
+				stopped = true
+				break
+			}
+		}
+		if stopped {
+			continue
+		}
+		var ct condTest
+		haveCT := false
+		if n := len(it.b.Instrs); n > 0 {
+			if ifi, ok := it.b.Instrs[n-1].(*ssa.If); ok {
+				ct, haveCT = decodeIf(ifi)
+			}
+		}
+		for si, s := range it.b.Succs {
+			if ef != nil && !ef(it.b, si) {
+				continue
+			}
+			am := it.amap
+			if haveCT {
+				pos := ct.TrueWhen == "true" || ct.TrueWhen == "nonnil"
+				truth := pos == (si == 0)
+				if prev, ok := it.amap[ct.V]; ok {
+					if prev != truth {
+						continue
+					}
+				} else {
+					am = map[ssa.Value]bool{}
+					for k, v := range it.amap {
+						am[k] = v
+					}
+					am[ct.V] = truth
+				}
+			}
+			// phi resolution: a phi whose incoming value on this edge has a known truthiness inherits it
+			for _, in := range s.Instrs {
+				ph, ok := in.(*ssa.Phi)
+				if !ok {
+					break
+				}
+				for pi, p := range s.Preds {
+					if p == it.b {
+						e := ph.Edges[pi]
+						if t, ok := am[e]; ok {
+							if am2 := am; true {
+								am = map[ssa.Value]bool{}
+								for k, v := range am2 {
+									am[k] = v
+								}
+								am[ph] = t
+							}
+						} else if isNilConst(e) {
+							am2 := am
+							am = map[ssa.Value]bool{}
+							for k, v := range am2 {
+								am[k] = v
+							}
+							am[ph] = false
+						} else {
+							if _, had := am[ph]; had {
+								am2 := am
+								am = map[ssa.Value]bool{}
+								for k, v := range am2 {
+									if k != ssa.Value(ph) {
+										am[k] = v
+									}
+								}
+							}
+						}
+					}
+				}
+			}
+			k := itoa(s.Index) + "|" + keyOf(am)
+			if seen[k] {
+				continue
+			}
+			seen[k] = true
+			queue = append(queue, item{s, 0, am, qi})
+		}
+	}
+	return nil, nil
+}
+
+// isSuccessReturn: a Return whose error result is not known to be non-nil on this path (nil constant,
+// a value assumed nil, or unknown) and is not a freshly made error.
+func isSuccessReturn(in ssa.Instruction, assume map[ssa.Value]bool) bool {
+	ret, ok := in.(*ssa.Return)
+	if !ok {
+		return false
+	}
+	fn := in.Parent()
+	idx := errorResultIndex(fn.Signature)
+	if idx < 0 || idx >= len(ret.Results) {
+		return true
+	}
+	v := resolveSpill(ret.Results[idx])
+	if isNilConst(v) {
+		return true
+	}
+	if t, ok := assume[v]; ok {
+		return !t
+	}
+	// a freshly constructed error (call result that is never nil-tested, allocation, global sentinel)
+	switch x := v.(type) {
+	case *ssa.Call:
+		if f := x.Common().StaticCallee(); f != nil {
+			if f.Pkg != nil && (f.Pkg.Pkg.Path() == "fmt" || f.Pkg.Pkg.Path() == "errors") {
+				return false
+			}
+			if strings.HasPrefix(f.Name(), "New") && strings.HasSuffix(f.Name(), "Error") {
+				return false
+			}
+		}
+	case *ssa.MakeInterface:
+		if _, ok := x.X.(*ssa.Alloc); ok {
+			return false
+		}
+		if c, ok := x.X.(*ssa.Call); ok {
+			if f := c.Common().StaticCallee(); f != nil && strings.HasPrefix(f.Name(), "New") {
+				return false
+			}
+		}
+	case *ssa.UnOp:
+		if _, ok := x.X.(*ssa.Global); ok {
+			return false // package-level sentinel error
+		}
+	}
+	return true
+}
+
+// resolveSpill undoes go/ssa's spilling of results in functions with defers: `*slot = v; rundefers;
+// t = *slot; return t`.  If v is a load of a local slot and the same block stores to that slot before
+// the load, the stored value is returned.
+func resolveSpill(v ssa.Value) ssa.Value {
+	u, ok := v.(*ssa.UnOp)
+	if !ok || u.Op != token.MUL {
+		return v
+	}
+	a, ok := u.X.(*ssa.Alloc)
+	if !ok {
+		return v
+	}
+	b := u.Block()
+	var last ssa.Value
+	for _, in := range b.Instrs {
+		if in == ssa.Instruction(u) {
+			break
+		}
+		if st, ok := in.(*ssa.Store); ok && st.Addr == a {
+			last = st.Val
+		}
+	}
+	if last != nil {
+		return last
+	}
+	return v
+}
